@@ -330,6 +330,28 @@ fn main() {
     let stdout = std::io::stdout();
     let mut out = std::io::BufWriter::new(stdout.lock());
     let pf = profile();
+    // `--threads N`: the requests are split into N contiguous runs answered CONCURRENTLY by N threads of this
+    // one process (process-wide state shared, thread-local state not); answers are printed in request order.
+    let args: Vec<String> = std::env::args().collect();
+    let nthreads = args.iter().position(|a| a == "--threads").and_then(|i| args.get(i + 1)).and_then(|s| s.parse::<usize>().ok()).unwrap_or(1);
+    if nthreads > 1 {
+        let lines: Vec<String> = stdin.lock().lines().map(|l| l.unwrap().trim_end().to_string()).filter(|l| !l.is_empty()).collect();
+        let chunk = (lines.len() + nthreads - 1) / nthreads.max(1);
+        let mut handles = Vec::new();
+        for part in lines.chunks(chunk.max(1)) {
+            let part: Vec<String> = part.to_vec();
+            handles.push(std::thread::Builder::new().stack_size(64 << 20).spawn(move || {
+                part.iter().map(|l| format!("{}\t{} {}", l, pf, handle(l))).collect::<Vec<String>>()
+            }).unwrap());
+        }
+        for h in handles {
+            for l in h.join().unwrap() {
+                writeln!(out, "{}", l).unwrap();
+            }
+        }
+        out.flush().unwrap();
+        return;
+    }
     for line in stdin.lock().lines() {
         let line = line.unwrap();
         let line = line.trim_end();
